@@ -160,7 +160,10 @@ def instr_ast(mnem, ops):
     if mnem == "PMOVMSKB":
         return ".PMOVMSKB %s %s" % (xr(o[0]), r(o[1]))
     if mnem == "MOVQ" and o[1].startswith("("):
-        _, b, _ = parse_mem(o[1])
+        d, b, i = parse_mem(o[1])
+        if b != "R8" or d != 0 or i is not None:
+            # the only memory the kernels may write is the result slot the wrapper put in R8 (LEAQ ret+n(FP), R8)
+            raise ValueError("store to memory other than the result slot: " + ops)
         if o[0].startswith("$"):
             return ".MOVQimm %s %s" % (li(int(o[0][1:], 0)), r(b))
         return ".MOVQst %s %s" % (r(o[0]), r(b))
